@@ -588,14 +588,86 @@ def parse_driver_output(out):
     return cases
 
 
-def run_driver(exe, text, timeout=600, env=None):
+def _run_watch(cmd, text, timeout, case_timeout, env):
+    """run the driver with a watchdog: killed (rc 124) when the whole run exceeds `timeout` or when no further case
+    is answered (a line holding a single '.') within `case_timeout` seconds"""
+    import threading
+    p = subprocess.Popen(cmd, stdin=subprocess.PIPE, stdout=subprocess.PIPE, stderr=subprocess.PIPE, env=env)
+    chunks, errs = [], []
+    state = {"done": 0, "t": time.time()}
+
+    def rd_out():
+        for line in iter(p.stdout.readline, b""):
+            chunks.append(line)
+            if line.strip() == b".":
+                state["done"] += 1
+                state["t"] = time.time()
+
+    def rd_err():
+        errs.append(p.stderr.read())
+
+    def wr_in():
+        try:
+            p.stdin.write(text)
+            p.stdin.close()
+        except (BrokenPipeError, OSError):
+            pass
+    ths = [threading.Thread(target=f, daemon=True) for f in (rd_out, rd_err, wr_in)]
+    for t in ths:
+        t.start()
+    t0 = time.time()
+    hung = False
+    while p.poll() is None:
+        time.sleep(0.05)
+        now = time.time()
+        if now - t0 > timeout or now - state["t"] > case_timeout:
+            hung = True
+            p.kill()
+            break
+    p.wait()
+    for t in ths:
+        t.join(timeout=5)
+    out = b"".join(chunks).decode("utf-8", "replace")
+    err = b"".join(x for x in errs if x).decode("utf-8", "replace")
+    return (124 if hung else p.returncode), out, err
+
+
+def run_driver(exe, text, timeout=600, env=None, case_timeout=240):
     e = dict(os.environ)
     e["ASAN_OPTIONS"] = "detect_leaks=0:abort_on_error=0:exitcode=77"
     e["UBSAN_OPTIONS"] = "print_stacktrace=1:halt_on_error=1:exitcode=78"
     if env:
         e.update(env)
-    rc, out, err = sh([exe], timeout=timeout, inp=text.encode(), env=e)
+    rc, out, err = _run_watch([exe], text.encode(), timeout, case_timeout, e)
     return rc, parse_driver_output(out), err
+
+
+def run_driver_cases(ck, exe, lines, describe, header="", timeout=900, case_timeout=40, env=None, max_bad=5):
+    """run one case per line; a case on which the library hangs (no answer within case_timeout seconds), crashes or
+    aborts is reported as a FAILURE of the property with that input (describe(k) -> (site, input dict)), the remaining
+    cases are run in a fresh process.  Returns the list of parsed outputs (None for the reported cases)."""
+    outs = [None] * len(lines)
+    start, nbad = 0, 0
+    t0 = time.time()
+    while start < len(lines):
+        rc, got, err = run_driver(exe, header + "\n".join(lines[start:]) + "\n", timeout=max(30, timeout - (time.time() - t0)), env=env, case_timeout=case_timeout)
+        got = got[:len(lines) - start]
+        for j, o in enumerate(got):
+            outs[start + j] = o
+        k = start + len(got)
+        if k >= len(lines):
+            break
+        site, inp = describe(k)
+        hang = rc == 124
+        ck.fail(site, "hang" if hang else "crash",
+                ("the library does not return within %d s on this input" % case_timeout) if hang else
+                ("the library aborted or crashed (rc %s): %s" % (rc, (err.strip().splitlines() or [""])[-1][:200])), inp)
+        nbad += 1
+        start = k + 1
+        if nbad >= max_bad or time.time() - t0 > timeout:
+            ck.broken("driver %s" % os.path.basename(exe).split("-")[0], "stopped after %d hanging/crashing cases; %d cases not run" % (nbad, len(lines) - start))
+            break
+    return outs
 
 
 def coq_failing_ids(log):
